@@ -14,6 +14,7 @@ import traceback
 
 import numpy as np
 
+TMULT = float(os.environ.get('VERIF_TMULT', '6'))
 HOME = os.environ.get('VERIF_HOME', os.path.dirname(os.path.dirname(os.path.abspath(__file__))))
 
 
@@ -77,8 +78,8 @@ def band(x, lo=-16, hi=8):
 
 
 def hkey(*parts):
-    h = hashlib.blake2b(repr(parts).encode(), digest_size=8).hexdigest()
-    return h
+    """64-bit key of a case description (distinct-case counting, replay file names)"""
+    return int.from_bytes(hashlib.blake2b(repr(parts).encode(), digest_size=8).digest(), 'big')
 
 
 # ----------------------------------------------------------------------------- context
@@ -112,8 +113,8 @@ class Ctx:
         return i % self.nshards == self.shard
 
     def scale(self, quick, thorough):
-        """Case budget for this shard."""
-        n = quick if self.tier == 'quick' else thorough
+        """Case budget for this shard (thorough budgets are multiplied by VERIF_TMULT, default 6)."""
+        n = quick if self.tier == 'quick' else thorough * TMULT
         return max(1, int(math.ceil(n / self.nshards)))
 
     # -- recording
@@ -160,7 +161,7 @@ class Ctx:
     # -- (de)serialisation for shards
     def dump(self):
         return dict(mon={k: dict(v) for k, v in self.mon.items()}, viol=self.viol,
-                    viol_count=dict(self.viol_count), nt=sorted(self.nt), cells=dict(self.cells),
+                    viol_count=dict(self.viol_count), nt=list(self.nt), cells=dict(self.cells),
                     samples=self.samples, ncases=self.ncases, harness_errors=self.harness_errors,
                     extra=self.extra, wall=time.time() - self.t0)
 
@@ -180,7 +181,7 @@ def drive(runners, ctx, kind, params):
 
 
 def merge(dumps):
-    out = dict(mon={}, viol={}, viol_count=collections.Counter(), nt=set(), cells=collections.Counter(),
+    out = dict(mon={}, viol={}, viol_count=collections.Counter(), nt=set(), nt_parts=[], cells=collections.Counter(),
                samples=[], ncases=0, harness_errors=[], extra={}, wall=0.0)
     for d in dumps:
         for k, v in d['mon'].items():
@@ -190,7 +191,7 @@ def merge(dumps):
         for k, v in d['viol'].items():
             out['viol'].setdefault(k, v)
         out['viol_count'].update(d['viol_count'])
-        out['nt'].update(d['nt'])
+        out['nt_parts'].append(np.asarray(d['nt'], dtype=np.uint64))
         out['cells'].update(d['cells'])
         for s in d['samples']:
             if len(out['samples']) < 8:
@@ -205,6 +206,7 @@ def merge(dumps):
             else:
                 out['extra'].setdefault(k, v)
         out['wall'] = max(out['wall'], d['wall'])
+    out['nt'] = np.unique(np.concatenate(out.pop('nt_parts'))) if out['nt_parts'] else np.zeros(0, dtype=np.uint64)
     return out
 
 
